@@ -259,14 +259,14 @@ func validatePositive(v interface{}, _ string) error {
 		return nil
 	}
 
-	if d, ok := v.(time.Duration); ok {
+	if d, ok := durationOf(v); ok {
 		if d < 0 {
 			return ErrNegative
 		}
 		return nil
 	}
 
-	val := reflect.ValueOf(v)
+	val := chaseValue(reflect.ValueOf(v))
 	switch val.Kind() {
 	case reflect.Int, reflect.Int8, reflect.Int16, reflect.Int32, reflect.Int64:
 		if val.Int() >= 0 {
@@ -288,7 +288,7 @@ func validateMin(v interface{}, param string) error {
 		return nil
 	}
 
-	if d, ok := v.(time.Duration); ok {
+	if d, ok := durationOf(v); ok {
 		min, err := param2Duration(param)
 		if err != nil {
 			return err
@@ -300,7 +300,7 @@ func validateMin(v interface{}, param string) error {
 		return nil
 	}
 
-	val := reflect.ValueOf(v)
+	val := chaseValue(reflect.ValueOf(v))
 	switch val.Kind() {
 	case reflect.Int, reflect.Int8, reflect.Int16, reflect.Int32, reflect.Int64:
 		min, err := strconv.ParseInt(param, 0, 64)
@@ -338,7 +338,7 @@ func validateMax(v interface{}, param string) error {
 		return nil
 	}
 
-	if d, ok := v.(time.Duration); ok {
+	if d, ok := durationOf(v); ok {
 		max, err := param2Duration(param)
 		if err != nil {
 			return err
@@ -350,7 +350,7 @@ func validateMax(v interface{}, param string) error {
 		return nil
 	}
 
-	val := reflect.ValueOf(v)
+	val := chaseValue(reflect.ValueOf(v))
 	switch val.Kind() {
 	case reflect.Int, reflect.Int8, reflect.Int16, reflect.Int32, reflect.Int64:
 		max, err := strconv.ParseInt(param, 0, 64)
@@ -453,6 +453,15 @@ func validateNonEmptyWithAllowNil(v interface{}, _ string, allowNil bool) error 
 	}
 
 	return nil
+}
+
+// durationOf returns the duration v holds, directly or behind pointers.
+func durationOf(v interface{}) (time.Duration, bool) {
+	val := chaseValue(reflect.ValueOf(v))
+	if !val.IsValid() || val.Type() != tDuration {
+		return 0, false
+	}
+	return time.Duration(val.Int()), true
 }
 
 func param2Duration(param string) (time.Duration, error) {
